@@ -77,7 +77,8 @@ def _reach_from(g: CFG, src: int, labels: Set[str], avoid: Set[int]) -> Set[int]
 
 
 def find_path(g: CFG, src: int, dst: Iterable[int], avoid: Iterable[int] = (), labels: Set[str] = ALL,
-              first_labels: Optional[Set[str]] = None) -> Optional[List[int]]:
+              first_labels: Optional[Set[str]] = None,
+              edge_ok: Optional[Callable[[int, int, str], bool]] = None) -> Optional[List[int]]:
     """A path src -> (any of dst) that avoids every node in `avoid` (src itself may be in avoid);
     None if there is none.  `first_labels` restricts the labels of the first edge."""
     dsts = set(dst)
@@ -92,6 +93,8 @@ def find_path(g: CFG, src: int, dst: Iterable[int], avoid: Iterable[int] = (), l
             labs = first_labels if (first and first_labels is not None) else labels
             for d, l in g.succ[n]:
                 if l not in labs or d in seen:
+                    continue
+                if edge_ok is not None and not edge_ok(n, d, l):
                     continue
                 if d in av and d not in dsts:
                     continue
